@@ -368,4 +368,67 @@ theorem xstep_eq (x : XTables) (inp : Input) (fin : Int) (stop : Bool) (k : Nat)
     obtain ⟨c1, a⟩ := p
     cases a <;> rfl
 
+/-! ### `xstep` = a pre-step that never looks at the recovery parameters, then `onError` -/
+
+inductive XPre where
+  | cont (c : XCfg)
+  | done (r : XResult) (c : XCfg)
+  | err (c : XCfg)
+
+def XPre.run (f : XCfg → XStep) : XPre → XStep
+  | .cont c => .cont c
+  | .done r c => .done r c
+  | .err c => f c
+
+def XPre.cfg : XPre → XCfg
+  | .cont c => c
+  | .done _ c => c
+  | .err c => c
+
+/-- the part of the reduce branch after the right-hand side range is known -/
+def xreduceTail (x : XTables) (c2 : XCfg) (rule : Int) (ln : Nat) (lhs : Int) (off endo : Nat) : XPre :=
+  match applyRuleEvents x rule ln off endo c2.stack with
+  | none => .done .panic c2
+  | some (evs, endo') =>
+    match c2.stack.drop ln with
+    | [] => .done .panic { c2 with evs := evs.reverse ++ c2.evs }
+    | top :: _ =>
+      match gotoState x.t top.state lhs with
+      | none => .done .panic { c2 with evs := evs.reverse ++ c2.evs }
+      | some q =>
+        if q = -1 then
+          .err { c2 with evs := evs.reverse ++ c2.evs, stack := ⟨lhs, off, endo', q⟩ :: c2.stack.drop ln, state := q }
+        else
+          .cont { c2 with evs := evs.reverse ++ c2.evs, stack := ⟨lhs, off, endo', q⟩ :: c2.stack.drop ln, state := q }
+
+def xreducePre (x : XTables) (inp : Input) (c1 : XCfg) (rule : Int) : XPre :=
+  match geti x.t.ruleLen rule, geti x.t.ruleSymbol rule with
+  | some ln, some lhs =>
+    if ln.toNat > c1.stack.length then .done .panic c1
+    else if ln.toNat = 0 then
+      xreduceTail x (c1.fetch inp).1 rule ln.toNat lhs (c1.fetch inp).2.off (c1.fetch inp).2.off
+    else
+      xreduceTail x c1 rule ln.toNat lhs
+        (((c1.stack.take ln.toNat).getLast?.map (·.off)).getD 0)
+        (((c1.stack.take ln.toNat).head?.map (·.endo)).getD 0)
+  | _, _ => .done .panic c1
+
+theorem xreduce_pre (x : XTables) (inp : Input) (fin : Int) (stop : Bool) (c1 : XCfg) (rule : Int) :
+    xreduce x inp fin stop c1 rule = (xreducePre x inp c1 rule).run (onError x inp fin stop) := by
+  unfold xreduce xreducePre
+  split
+  · simp only
+    next ln lhs _ _ =>
+    by_cases hl : ln.toNat > c1.stack.length
+    · simp only [hl, if_true]; rfl
+    · simp only [hl, if_false]
+      by_cases h0 : ln.toNat = 0
+      · simp only [h0, if_true]
+        unfold xreduceTail
+        repeat' (first | rfl | split)
+      · simp only [h0, if_false]
+        unfold xreduceTail
+        repeat' (first | rfl | split)
+  · rfl
+
 end TmVerif.LRX
